@@ -821,14 +821,17 @@ class Program:
         return out
 
     # ----------------------------------------------------------- inventories
-    def who_calls(self, *names, suffix=False, within=None):
-        """call sites whose target/callee equals one of names (dyn-expanded callees included)."""
+    def who_calls(self, *names, suffix=False, within=None, mentions=True):
+        """call sites whose target/callee equals one of names (dyn-expanded callees included); with `mentions`, also the call sites that
+        are handed one of the names as a function item (`iter.for_each(lowercase_keyword)`: the callee will call it)."""
         out = []
         for k, b in self.bodies.items():
             if within is not None and k not in within:
                 continue
             for c in b.calls():
                 tg = self.callees_of_site(c) | {c.callee}
+                if mentions:
+                    tg = tg | {norm(a["fn"]) for a in c.args if a["k"] == "const" and a.get("fn")}
                 for nm in names:
                     if nm in tg or (suffix and any(x and x.endswith(nm) for x in tg)):
                         out.append(c)
